@@ -134,12 +134,17 @@ pub fn gen_case(rng: &mut Rng) -> Option<Value> {
         }
     }
     let lines = split_lines(&input, term);
+    // ripgrep's reading of a braced reference with an odd name (the recorded
+    // finding): the reference stands for itself
+    let alt_template = literalise_odd(&template);
     let mut out_lines = vec![];
     for (i, l) in lines.iter().enumerate() {
         let content = &input[l.start..l.content_end];
         let matched = re.is_match(content);
         let replaced = re.replace_all(content, template.as_bytes());
+        let replaced_alt = re.replace_all(content, alt_template.as_bytes());
         let mut exps = vec![];
+        let mut exps_alt = vec![];
         let mut first = None;
         for caps in re.captures_iter(content) {
             let m = caps.get(0).unwrap();
@@ -149,12 +154,17 @@ pub fn gen_case(rng: &mut Rng) -> Option<Value> {
             let mut dst = vec![];
             caps.expand(template.as_bytes(), &mut dst);
             exps.push(esc(&dst));
+            let mut dst = vec![];
+            caps.expand(alt_template.as_bytes(), &mut dst);
+            exps_alt.push(esc(&dst));
         }
         out_lines.push(json!({
             "n": i + 1,
             "matched": matched,
             "content": esc(content),
             "replaced": esc(&replaced),
+            "replaced_alt": esc(&replaced_alt),
+            "expansions_alt": exps_alt,
             "expansions": exps,
             "first_match_start": first,
             "terminated": l.content_end < l.end,
@@ -172,10 +182,31 @@ pub fn gen_case(rng: &mut Rng) -> Option<Value> {
     let swallows_terminator = ml_re.as_ref().map_or(false, |re| {
         re.find_iter(&input).any(|m| m.as_bytes().ends_with(b"\n"))
     });
+    let whole_of = |tmpl: &str| -> Option<String> {
+        if swallows_terminator {
+            return None;
+        }
+        ml_re.as_ref().map(|re| {
+            let mut out = vec![];
+            let mut last = 0;
+            for caps in re.captures_iter(&input) {
+                let m = caps.get(0).unwrap();
+                if m.is_empty() && m.start() == input.len() && input.ends_with(b"\n") {
+                    continue;
+                }
+                out.extend_from_slice(&input[last..m.start()]);
+                caps.expand(tmpl.as_bytes(), &mut out);
+                last = m.end();
+            }
+            out.extend_from_slice(&input[last..]);
+            esc(&out)
+        })
+    };
+    let whole_alt = whole_of(&alt_template);
     let whole = if swallows_terminator {
         None
     } else {
-        ml_re.map(|re| {
+        ml_re.clone().map(|re| {
             // replace_all, except that an empty match right after the final
             // line terminator is on no line and therefore not printed
             let mut out = vec![];
@@ -204,7 +235,41 @@ pub fn gen_case(rng: &mut Rng) -> Option<Value> {
         "term": term.name(),
         "lines": out_lines,
         "whole_input_replaced": whole,
+        "whole_input_replaced_alt": whole_alt,
     }))
+}
+
+/// The template with every `${...}` of an odd name made literal (`$${...}`).
+pub fn literalise_odd(t: &str) -> String {
+    let b = t.as_bytes();
+    let mut out = String::new();
+    let mut i = 0;
+    while i < b.len() {
+        if b[i] == b'$' && i + 1 < b.len() && b[i + 1] == b'$' {
+            out.push_str("$$");
+            i += 2;
+            continue;
+        }
+        if b[i] == b'$' && i + 1 < b.len() && b[i + 1] == b'{' {
+            if let Some(j) = b[i + 2..].iter().position(|&c| c == b'}') {
+                let inner = &b[i + 2..i + 2 + j];
+                if inner.is_empty()
+                    || inner.iter().any(|c| !(c.is_ascii_alphanumeric() || *c == b'_'))
+                {
+                    // only the `$` becomes literal; what follows it is
+                    // scanned again (it may hold further references)
+                    out.push_str("$$");
+                    i += 1;
+                    continue;
+                }
+            }
+        }
+        // (templates are ASCII apart from literal text; copy by char)
+        let ch = t[i..].chars().next().unwrap();
+        out.push(ch);
+        i += ch.len_utf8();
+    }
+    out
 }
 
 /// `${...}` whose content has a byte outside [0-9A-Za-z_] (or is empty).
